@@ -129,6 +129,11 @@ func runC10(c *Ctx) {
 			c.obFactMatch("ext replaced only after a 250", st, `^\(\*Client\)\.cmd\(param0,250,"%s %s",.*\)#2 == nil$`, "extension map replaced although EHLO failed")
 		}
 		R.Ob("(*Client).ehlo/replaces ext", c.P.Pos(f.Pos()), len(s.Find(f, "st:Client.ext")) >= 1, "ehlo does not store the extension map")
+		// ... on EVERY successful EHLO, also one whose reply lists no extension at all
+		for _, site := range s.Find(f, "ccmd") {
+			site := site
+			c.obFollowH("every successful EHLO replaces the extension map", f, func(in ssa.Instruction) bool { return in == site }, []string{"st:Client.ext"}, describe(site.(ssa.Value))+"#2 == nil")
+		}
 	}
 	if f := c.A.Func("(*Client).helo"); f != nil {
 		R.Ob("(*Client).helo/clears ext", c.P.Pos(f.Pos()), s.Must(f)["st:Client.ext=nil"], "HELO fallback keeps stale extensions")
